@@ -1912,6 +1912,9 @@ impl Context {
         if len == 0 {
             return (Arc::new(Value::None), unit!(), vec![]);
         }
+        // The allocation must dominate every store below: remember the basic block as well as
+        // the position, because evaluating an element (e.g. an `if`) can open new basic blocks.
+        let alloc_bb = self.get_ctxdata().current_bb;
         let alloc_insert_point = self.get_current_basicblock().0.len();
         let dst = self.gen_new_register();
         let mut states = vec![];
@@ -1925,10 +1928,15 @@ impl Context {
             states.extend(s);
             self.push_inst(Instruction::Store(ptr, v, elem_ty));
         }
-        self.get_current_basicblock().0.insert(
-            alloc_insert_point,
-            (dst.clone(), Instruction::Alloc(alloc_ty)),
-        );
+        self.get_current_fn()
+            .body
+            .get_mut(alloc_bb)
+            .expect("no basic block found")
+            .0
+            .insert(
+                alloc_insert_point,
+                (dst.clone(), Instruction::Alloc(alloc_ty)),
+            );
 
         // pass only the head of the tuple, and the length can be known
         // from the type information.
